@@ -500,3 +500,36 @@ def walk_vectors(g, cap):
             if all((not c) or (u in seen) for (u, v), c in zip(E, x)):
                 out.append((tuple(x), s0, t0))
     return out
+
+
+def min_cover_constrained(g, targets, constraints, coverage=1.0, stats=None):
+    """Minimum number of S->T walks covering all target arcs such that every constraint (list of arcs) has at least
+    ceil-free `coverage * len(set(constraint))` of its distinct arcs inside ONE of the walks. None if impossible."""
+    cons = [sorted(set(tuple(e) for e in c)) for c in constraints]
+    universe = list(dict.fromkeys(list(targets) + [e for c in cons for e in c]))
+    masks = coverable_masks(g, universe, stats)
+    idx = {e: i for i, e in enumerate(universe)}
+    tmask = 0
+    for e in targets:
+        tmask |= 1 << idx[e]
+    cmasks = []
+    for c in cons:
+        cmasks.append(([idx[e] for e in c], coverage * len(c)))
+
+    def ok(combo):
+        u = 0
+        for m in combo:
+            u |= m
+        if (u & tmask) != tmask:
+            return False
+        for bits, need in cmasks:
+            if not any(sum(1 for b in bits if m >> b & 1) >= need - 1e-9 for m in combo):
+                return False
+        return True
+    if not targets and not cons:
+        return 0
+    for k in range(1, len(universe) + 1):
+        for combo in itertools.combinations_with_replacement(masks, k) if k <= 3 else itertools.combinations(masks, k):
+            if ok(combo):
+                return k
+    return None
